@@ -226,7 +226,9 @@ def gen_strs(job):
                     data = [v] + B.convertbits(list(prog), 8, 5)
                     for const, nm in ((1, "bech32"), (B.BECH32M_CONST, "bech32m")):
                         yield f"constant {nm} v{v} len{n}", B.encode_raw(hrp, data, const)
-        for hrp in ("tc", "BC", "b", "bc1", "bcr", "ltc", "", "bc\x00", "tb "):
+        from vf.classes import substrings_across
+        hrps_sub = [h.decode() for h in substrings_across([b"bc", b"tb", b"bcrt"])]       # b, c, t, r, rt, cr, bcr, ct, tbb, bctb, ...
+        for hrp in ["tc", "BC", "b", "bc1", "bcr", "ltc", "", "bc\x00", "tb "] + hrps_sub + ["bcbc", "tbtb", "btc", "cb", "bt"]:
             for v in (0, 1):
                 data = [v] + B.convertbits(list(f(20)), 8, 5)
                 try:
